@@ -4,10 +4,14 @@ C11 — the session cache is a correct bounded LRU that never harms a live sessi
 Property theorems only (helpers are in `Gotlcp.Lemmas.LRU`).  All statements quantify over
 every capacity, every key/value alphabet and every operation sequence of any length.
 The model is `Gotlcp.Model.LRU`, parameterised by the regenerated source facts
-`Facts.{tlcp,dtlcp}.lru*`; the spec is the textbook map `Gotlcp.Spec.LRUMap`.
+`Facts.{tlcp,dtlcp}.lru*`; the spec is the textbook map `Gotlcp.Spec.LRUMap`. The heap half
+(`Gotlcp.Model.LRUHeap`: which backing arrays the reference fields of sessions, handshake copies
+and connection states point at, what an eviction overwrites / drops) carries "never harms a
+live session" from the master secret to every field (`C11_live_intact`).
 -/
 import Gotlcp.Lemmas.LRU
 import Gotlcp.Lemmas.LRUConc
+import Gotlcp.Lemmas.LRUHeap
 import Gotlcp.Generated.Facts
 
 set_option linter.unusedSimpArgs false
@@ -15,6 +19,8 @@ set_option linter.unusedSimpArgs false
 namespace Gotlcp.Props.C11
 open Gotlcp.Model.LRU
 open Gotlcp.Lemmas.LRU
+open Gotlcp.Model.LRUHeap
+open Gotlcp.Lemmas.LRUHeap
 open Gotlcp.Spec
 
 /-! ### one-step preservation -/
@@ -626,6 +632,89 @@ theorem C11_zero_only_evicted (b : Bool) (s : State) (op : Op) (o : ObjId)
               · exact Or.inr ⟨back, hb, hv, by omega⟩
               · exact Or.inl h
 
+/-! #### every field: eviction never changes a live session or a session in use -/
+
+/-- **Eviction and deletion never change ANY field of a live session or of a session in use.**
+`alloc` is the heap the history works on: for every object — stored sessions, the private copy
+a handshake works on, the state of an open connection — the backing arrays its reference
+fields point at, with whatever sharing the program created (`SessionState.clone()` shares the
+session identifier and the peer certificates with its original, a connection shares the peer
+certificates of the session it was created from / resumed). `E` is what the eviction path
+does through the evicted pointer (fields overwritten in place, fields set to nil), `deep` the
+fields whose storage is never shared (the fields `clone()` re-allocates). If every field the
+eviction overwrites in place is such a field (`hsub`), then for every capacity and every
+operation sequence that stores each session object once:
+  * every reference of every session still reachable through the cache — under any key — is
+    unchanged, and
+  * every reference of every object that was never handed to the cache — a connection state, the
+    copy a running handshake uses — is unchanged,
+whatever was evicted in between. The hypotheses are facts of this tree (`C11_facts`:
+`lruEvictInPlace ⊆ lruCloneDeep`) or checked on real handshake histories (`DeepUnshared`,
+one object per `Put`). -/
+theorem C11_live_intact (E : Evict) (deep : List Field) (hsub : ∀ f ∈ E.inPlace, f ∈ deep)
+    (alloc : List Ref) (hd : DeepUnshared deep alloc)
+    (b : Bool) (d : Nat) (c : Int) (ops : List Op) (hf : FreshPuts [] ops) :
+    let s := (run b (init d c) ops).1
+    (∀ r ∈ alloc, r.obj ∈ live s → status E alloc s.zeroed r = .ok) ∧
+    (∀ r ∈ alloc, r.obj ∉ putObjs ops → status E alloc s.zeroed r = .ok) := by
+  intro s
+  constructor
+  · intro r hr hl
+    exact status_ok_of_not_evicted E deep hsub alloc hd _ r hr (C11_live_unharmed b d c ops hf r.obj hl)
+  · intro r hr hnp
+    refine status_ok_of_not_evicted E deep hsub alloc hd _ r hr ?_
+    intro hz
+    rcases run_reach b (init d c) ops r.obj (Or.inr hz) with h | h | h
+    · simp [live, init] at h
+    · simp [init] at h
+    · exact hnp h
+
+/-- Frame condition of the heap: when more objects become evicted, a reference changes only if
+it belongs to a newly evicted object, or points — in a field the eviction overwrites in place —
+at the very backing array a newly evicted object points at. -/
+theorem C11_change_frame (E : Evict) (alloc : List Ref) (before after : List ObjId)
+    (hmono : ∀ o ∈ before, o ∈ after) (r : Ref)
+    (hne : status E alloc before r ≠ status E alloc after r) :
+    ∃ o, o ∈ after ∧ o ∉ before ∧
+      (r.obj = o ∨ (r.field ∈ E.inPlace ∧ ∃ r' ∈ alloc, r'.obj = o ∧ r'.field = r.field ∧ r'.buf = r.buf)) := by
+  by_cases hA : after.contains r.obj = before.contains r.obj
+  · by_cases hB : bufCleared E alloc after r.field r.buf = bufCleared E alloc before r.field r.buf
+    · exfalso; apply hne; unfold status; rw [hA, hB]
+    · -- the backing array became overwritten
+      cases hb : bufCleared E alloc before r.field r.buf with
+      | true =>
+        exfalso; apply hB; rw [hb]
+        unfold bufCleared at hb ⊢
+        simp only [Bool.and_eq_true, List.any_eq_true, beq_iff_eq] at hb ⊢
+        obtain ⟨hin, r', hr', hfb, hev⟩ := hb
+        exact ⟨hin, r', hr', hfb, List.contains_iff_mem.mpr (hmono _ (List.contains_iff_mem.mp hev))⟩
+      | false =>
+        cases ha : bufCleared E alloc after r.field r.buf with
+        | false => exfalso; apply hB; rw [ha, hb]
+        | true =>
+          unfold bufCleared at ha
+          simp only [Bool.and_eq_true, List.any_eq_true, beq_iff_eq] at ha
+          obtain ⟨hin, r', hr', ⟨hbuf, hf⟩, hev⟩ := ha
+          refine ⟨r'.obj, List.contains_iff_mem.mp hev, ?_, Or.inr ⟨List.contains_iff_mem.mp hin, r', hr', rfl, hf, hbuf⟩⟩
+          intro hbef
+          have : bufCleared E alloc before r.field r.buf = true := by
+            unfold bufCleared
+            simp only [Bool.and_eq_true, List.any_eq_true, beq_iff_eq]
+            exact ⟨hin, r', hr', ⟨hbuf, hf⟩, List.contains_iff_mem.mpr hbef⟩
+          rw [hb] at this; cases this
+  · cases hb : before.contains r.obj with
+    | true =>
+      exfalso; apply hA; rw [hb]
+      exact List.contains_iff_mem.mpr (hmono _ (List.contains_iff_mem.mp hb))
+    | false =>
+      cases ha : after.contains r.obj with
+      | false => exfalso; apply hA; rw [ha, hb]
+      | true =>
+        refine ⟨r.obj, List.contains_iff_mem.mp ha, ?_, Or.inl rfl⟩
+        intro hm
+        have := List.contains_iff_mem.mpr hm
+        rw [hb] at this; cases this
+
 /-! #### concurrent use is equivalent to a sequential order -/
 
 /-- **Linearizability.** For any number of goroutines, any programs and ANY schedule: the
@@ -666,6 +755,33 @@ theorem C11_facts :
     Facts.missing = [] := by
   decide
 
+/-- the eviction path of this tree, as extracted -/
+def evictTlcp : Evict := ⟨Facts.tlcp.lruEvictInPlace, Facts.tlcp.lruEvictDropped⟩
+def evictDtlcp : Evict := ⟨Facts.dtlcp.lruEvictInPlace, Facts.dtlcp.lruEvictDropped⟩
+
+/-- The heap facts of this tree (both stacks): `SessionState` has exactly three reference
+fields; `clone()` is a struct copy that re-allocates the master secret; the eviction path of
+`Put` overwrites in place and drops the master secret and nothing else, does nothing opaque
+with the evicted session, and neither `Put` nor `Get` touches a session anywhere else — so
+every field the cache overwrites in place is a field `clone()` gives storage of its own
+(the hypothesis `hsub` of `C11_live_intact`). -/
+theorem C11_facts_heap :
+    Facts.tlcp.lruSessionRefFields = ["sessionId", "masterSecret", "peerCertificates"] ∧
+    Facts.dtlcp.lruSessionRefFields = ["sessionId", "masterSecret", "peerCertificates"] ∧
+    Facts.tlcp.lruCloneShallowFirst = true ∧ Facts.dtlcp.lruCloneShallowFirst = true ∧
+    Facts.tlcp.lruCloneDeep = ["masterSecret"] ∧ Facts.dtlcp.lruCloneDeep = ["masterSecret"] ∧
+    Facts.tlcp.lruEvictInPlace = ["masterSecret"] ∧ Facts.dtlcp.lruEvictInPlace = ["masterSecret"] ∧
+    Facts.tlcp.lruEvictDropped = ["masterSecret"] ∧ Facts.dtlcp.lruEvictDropped = ["masterSecret"] ∧
+    Facts.tlcp.lruEvictOpaque = false ∧ Facts.dtlcp.lruEvictOpaque = false ∧
+    Facts.tlcp.lruTouchesElsewhere = false ∧ Facts.dtlcp.lruTouchesElsewhere = false := by
+  decide
+
+/-- every field the eviction of this tree overwrites in place is re-allocated by `clone()` -/
+theorem C11_facts_inplace_sub_deep :
+    (∀ f ∈ evictTlcp.inPlace, f ∈ Facts.tlcp.lruCloneDeep) ∧
+    (∀ f ∈ evictDtlcp.inPlace, f ∈ Facts.dtlcp.lruCloneDeep) := by
+  decide
+
 /-- `C11_refines`, `C11_size` and `C11_live_unharmed` restated for the model instantiated with
 the facts extracted from THIS tree (both stacks): the statement the correspondence check ties
 to the running code (`oracle_c11` runs exactly `run Facts.*.lruPutNilAbsentReturns (init
@@ -689,7 +805,71 @@ theorem C11_code (c : Int) (ops : List Op) :
   have hl := C11_live_unharmed true 64 c ops
   exact ⟨⟨hr.1, hr.2, hs, hl⟩, ⟨hr.1, hr.2, hs, hl⟩⟩
 
+/-- `C11_live_intact` for the eviction path and the `clone()` extracted from THIS tree (both
+stacks): on any heap in which master-secret storage is not shared, any history that stores each
+session object once leaves every field of every reachable session, and of every object never
+handed to the cache (connection states, a handshake's private copy), unchanged. This is the
+statement `oracle_c11` ties to the running code: it predicts the observed field changes with
+exactly `status evict* alloc zeroed`. -/
+theorem C11_code_heap (alloc : List Ref) (c : Int) (ops : List Op) (hf : FreshPuts [] ops) :
+    (DeepUnshared Facts.tlcp.lruCloneDeep alloc →
+      let s := (run Facts.tlcp.lruPutNilAbsentReturns (init Facts.tlcp.lruDefaultCap c) ops).1
+      ∀ r ∈ alloc, (r.obj ∈ live s ∨ r.obj ∉ putObjs ops) → status evictTlcp alloc s.zeroed r = .ok) ∧
+    (DeepUnshared Facts.dtlcp.lruCloneDeep alloc →
+      let s := (run Facts.dtlcp.lruPutNilAbsentReturns (init Facts.dtlcp.lruDefaultCap c) ops).1
+      ∀ r ∈ alloc, (r.obj ∈ live s ∨ r.obj ∉ putObjs ops) → status evictDtlcp alloc s.zeroed r = .ok) := by
+  constructor
+  · intro hd s r hr h
+    have := C11_live_intact evictTlcp _ C11_facts_inplace_sub_deep.1 alloc hd
+      Facts.tlcp.lruPutNilAbsentReturns Facts.tlcp.lruDefaultCap c ops hf
+    rcases h with h | h
+    · exact this.1 r hr h
+    · exact this.2 r hr h
+  · intro hd s r hr h
+    have := C11_live_intact evictDtlcp _ C11_facts_inplace_sub_deep.2 alloc hd
+      Facts.dtlcp.lruPutNilAbsentReturns Facts.dtlcp.lruDefaultCap c ops hf
+    rcases h with h | h
+    · exact this.1 r hr h
+    · exact this.2 r hr h
+
 /-! #### non-vacuity -/
+
+/-- the heap one real full handshake creates (observed, phase conn): session 1 under the
+session-id key, its `clone()` 2 under the destination key (own master secret, shared identifier
+and certificates), connection 1000 sharing the certificates -/
+def heapOfOneHandshake : List Ref :=
+  [⟨1, "sessionId", 1⟩, ⟨1, "masterSecret", 1⟩, ⟨1, "peerCertificates", 1⟩,
+   ⟨2, "sessionId", 1⟩, ⟨2, "masterSecret", 2⟩, ⟨2, "peerCertificates", 1⟩,
+   ⟨1000, "peerCertificates", 1⟩]
+
+example : DeepUnshared ["masterSecret"] heapOfOneHandshake :=
+  (deepUnshared_iff _ _).mp (by decide)
+
+/-- capacity 1, this tree's eviction: storing the clone evicts session 1, whose master secret is
+dropped; session 2 (reachable) and connection 1000 (in use) keep every field -/
+example :
+    let s := (run true (init 64 1) [.put "sid" (some 1), .put "dst" (some 2)]).1
+    s.zeroed = [1] ∧ live s = [2] ∧
+    heapOfOneHandshake.map (status ⟨["masterSecret"], ["masterSecret"]⟩ heapOfOneHandshake s.zeroed)
+      = [.ok, .dropped, .ok, .ok, .ok, .ok, .ok] := by decide
+
+/-- why `hsub` is needed (the shape of seeded defect C11-f): an eviction path that also clears
+the peer certificates in place — a field `clone()` shares — leaves the reachable session 2 and
+the open connection 1000 with cleared certificates. -/
+example :
+    let s := (run true (init 64 1) [.put "sid" (some 1), .put "dst" (some 2)]).1
+    let E : Evict := ⟨["masterSecret", "peerCertificates"], ["masterSecret", "peerCertificates"]⟩
+    2 ∈ live s ∧ status E heapOfOneHandshake s.zeroed ⟨2, "peerCertificates", 1⟩ = .cleared ∧
+    1000 ∉ putObjs [.put "sid" (some 1), .put "dst" (some 2)] ∧
+    status E heapOfOneHandshake s.zeroed ⟨1000, "peerCertificates", 1⟩ = .cleared := by decide
+
+/-- why `DeepUnshared` is needed (the shape of seeded defect C11-a): a `clone()` that shares the
+master secret's storage has its master secret overwritten when the original is evicted. -/
+example :
+    let s := (run true (init 64 1) [.put "sid" (some 1), .put "dst" (some 2)]).1
+    let alloc : List Ref := [⟨1, "masterSecret", 1⟩, ⟨2, "masterSecret", 1⟩]
+    2 ∈ live s ∧ status ⟨["masterSecret"], ["masterSecret"]⟩ alloc s.zeroed ⟨2, "masterSecret", 1⟩ = .cleared := by
+  decide
 
 example : FreshPuts [] [.put "a" (some 1), .put "b" (some 2), .get "a", .put "c" (some 3), .put "a" none] := by
   simp [FreshPuts]
